@@ -1,5 +1,7 @@
 //! adsim — deterministic simulation harness for brave/adblock-rust.
 
+mod c09;
+mod c10;
 mod driver;
 mod exec;
 mod hist;
@@ -95,12 +97,99 @@ fn main() {
             let runs: Option<u64> = arg_val(&args, "--runs").and_then(|s| s.parse().ok());
             let code = match prop.as_str() {
                 "C05" | "C06" | "C07" | "C08" => driver::run_hist_check(&prop, &tier, seed, workers, runs),
+                "C09" => driver::run_c09_check(&tier, seed, workers, runs),
+                "C10" => driver::run_c10_check(&tier, seed, workers, runs),
                 _ => {
                     eprintln!("unknown property {}", prop);
                     2
                 }
             };
             std::process::exit(code);
+        }
+        "worker-c09" => {
+            let g = |n: &str, d: u64| arg_val(&args, n).map(|s| s.parse().unwrap()).unwrap_or(d);
+            driver::worker_c09(g("--seed", 1), g("--start", 0), g("--stride", 1), g("--count", 10), g("--deadline", 3600), g("--child-pct", 0), args.iter().any(|a| a == "--passthrough"));
+        }
+        "c09-child" => {
+            // build the world of a trace file in this (fresh) process under the given hash key
+            let text = std::fs::read_to_string(&args[2]).expect("read");
+            let t: hist::Trace = serde_json::from_str(&text).expect("parse");
+            if args.iter().any(|a| a == "--passthrough") {
+                seams::hashkey_passthrough();
+            } else {
+                seams::hashkey_set(arg_val(&args, "--key").map(|s| s.parse().unwrap()).unwrap_or(7));
+            }
+            let w = t.world.clone();
+            let h = std::thread::Builder::new().stack_size(32 << 20).spawn(move || c09::build_bytes(&w, 0, &[])).unwrap();
+            let (b, _) = h.join().expect("build");
+            println!("{:x} {}", c09::bytes_digest(&b), b.len());
+        }
+        "replay-c09" | "minimize-c09" => {
+            let text = std::fs::read_to_string(&args[2]).expect("read replay file");
+            let t: hist::Trace = serde_json::from_str(&text).expect("parse replay file");
+            driver::warm_up();
+            let o = c09::execute(&t, true, false);
+            if args[1] == "replay-c09" {
+                match o.violation {
+                    Some(v) => {
+                        println!("REPRODUCED property=C09 oracle={}\n  what={}\n  got ={}\n  want={}", v.oracle, v.what, v.got, v.want);
+                        std::process::exit(1);
+                    }
+                    None => println!("no violation"),
+                }
+            } else {
+                match o.violation {
+                    None => std::process::exit(3),
+                    Some(v) => {
+                        let f = |t: &hist::Trace| c09::execute(t, false, false).violation;
+                        // the child-process comparison is not needed to shrink unless it is the failing one
+                        let needs_child = v.what.contains("child-process");
+                        let fc = |t: &hist::Trace| c09::execute(t, true, false).violation;
+                        let (mut mt, mv, ms) = if needs_child { minimize::minimize_with(&fc, &t, &v) } else { minimize::minimize_with(&f, &t, &v) };
+                        mt.note = format!("minimised from world seed {} in {} executions", t.seed, ms.executions);
+                        mt.violation = Some(mv);
+                        std::fs::write(&args[3], serde_json::to_string_pretty(&mt).unwrap()).unwrap();
+                    }
+                }
+            }
+        }
+        "worker-c10" => {
+            let g = |n: &str, d: u64| arg_val(&args, n).map(|s| s.parse().unwrap()).unwrap_or(d);
+            driver::worker_c10(g("--seed", 1), g("--buffers", 2), g("--sampled", 100), g("--start", 0), g("--stride", 1), g("--skip-until", 0), g("--deadline", 3600), arg_val(&args, "--breadcrumb"), arg_val(&args, "--keys"));
+        }
+        "c10-case" => {
+            // materialise one case of the enumeration as a replay file
+            let g = |n: &str, d: u64| arg_val(&args, n).map(|s| s.parse().unwrap()).unwrap_or(d);
+            let bs = c10::buffer_set(g("--seed", 1), g("--buffer", 0), g("--sampled", 400));
+            let kind = arg_val(&args, "--kind").expect("--kind");
+            let idx = g("--index", 0);
+            let bytes = bs.space.case(&kind, idx);
+            let rp = c10::replay_of(&bs, &kind, idx, &bytes, None);
+            std::fs::write(arg_val(&args, "--out").expect("--out"), serde_json::to_string_pretty(&rp).unwrap()).unwrap();
+        }
+        "replay-c10" | "minimize-c10" => {
+            let text = std::fs::read_to_string(&args[2]).expect("read replay file");
+            let rp: c10::C10Replay = serde_json::from_str(&text).expect("parse replay file");
+            driver::warm_up();
+            let v = c10::execute_replay(&rp);
+            if args[1] == "replay-c10" {
+                match v {
+                    Some(v) => {
+                        println!("REPRODUCED property=C10 oracle={}\n  what={}\n  got ={}\n  want={}", v.oracle, v.what, v.got, v.want);
+                        std::process::exit(1);
+                    }
+                    None => println!("no violation"),
+                }
+            } else {
+                match v {
+                    None => std::process::exit(3),
+                    Some(v) => {
+                        let mut m = c10::minimize_replay(&rp, &v);
+                        m.note = "minimised: target rules dropped and corrupt byte string truncated while the same violation class persists".into();
+                        std::fs::write(&args[3], serde_json::to_string_pretty(&m).unwrap()).unwrap();
+                    }
+                }
+            }
         }
         "selfcheck" => {
             let seed: u64 = arg_val(&args, "--seed").or_else(|| std::env::var("VERIF_SEED").ok()).and_then(|s| s.parse().ok()).unwrap_or(1);
